@@ -91,6 +91,15 @@ func (t *WeightedMerkleTrie) Update(key, value []byte, weight uint64) error {
 
 func (t *WeightedMerkleTrie) insert(node Node, prefix, key []byte, value Node) (int64, Node, error) {
 	if len(key) == 0 {
+		// the existing value may be collapsed to its hash: load it, or its weight
+		// would be counted a second time
+		if hn, ok := node.(*hashNode); ok {
+			rn, err := t.resolveHashNode(hn)
+			if err != nil {
+				return 0, nil, err
+			}
+			node = rn
+		}
 		if v, ok := node.(*valueNode); ok {
 			newVal := value.(*valueNode).value
 			if bytes.Equal(v.value, newVal) {
